@@ -168,10 +168,10 @@ func concretize(c J, idx uint64) []byte {
 	case "CreateToken":
 		ty, pl = craft.CommandCreateToken, must(json.Marshal(craft.CreateTokenPayload{Token: craft.TokenEntry{Name: str(c, "name"),
 			Description: "d", Permissions: str(c, "perms"), TokenHash: str(c, "hash"), TokenPrefix: str(c, "prefix"),
-			CreatedAtUnixNano: cz(c, 1000), Enabled: false}}))
+			CreatedAtUnixNano: cz(c, 1000), ExpiresAtUnixNano: num(c, "exp"), Enabled: false}}))
 	case "UpdateToken":
 		ty, pl = craft.CommandUpdateToken, must(json.Marshal(craft.UpdateTokenPayload{ID: num(c, "id"), Name: str(c, "name"),
-			Permissions: str(c, "perms"), ChangedFields: strs(c, "changed")}))
+			Permissions: str(c, "perms"), ExpiresAtUnixNano: num(c, "exp"), ChangedFields: strs(c, "changed")}))
 	case "RevokeToken":
 		ty, pl = craft.CommandRevokeToken, must(json.Marshal(craft.RevokeTokenPayload{ID: num(c, "id")}))
 	case "DeleteToken":
@@ -483,7 +483,7 @@ func abstract(d Dump) map[string][]string {
 	}
 	for _, e := range entries(d["tokens"]) {
 		add("tokens", J{"id": e.E["id"], "name": abstractName(e.E["name"]), "prefix": e.E["token_prefix"], "hash": e.E["token_hash"],
-			"perms": e.E["permissions"], "enabled": e.E["enabled"], "lsn": e.E["lsn"]})
+			"perms": e.E["permissions"], "enabled": e.E["enabled"], "exp": orZero(e.E["expires_at_unix_nano"]), "lsn": e.E["lsn"]})
 	}
 	for _, e := range entries(d["orgs"]) {
 		add("orgs", J{"id": e.E["id"], "name": abstractName(e.E["name"]), "enabled": e.E["enabled"], "lsn": e.E["lsn"]})
@@ -516,6 +516,13 @@ func abstract(d Dump) map[string][]string {
 		sort.Strings(a[k])
 	}
 	return a
+}
+
+func orZero(v interface{}) interface{} {
+	if v == nil {
+		return 0
+	}
+	return v
 }
 
 func orEmpty(v interface{}) interface{} {
@@ -573,7 +580,7 @@ func viewNodes(d Dump) nodeView {
 	return v
 }
 
-// coherent: the node-role part of the state satisfies C23 and the marked primary (if any) is the named one.
+// coherent: the node-role part of the state satisfies C23 (<=1 marked primary; a named primary is registered and marked).
 func (v nodeView) coherent() bool {
 	if len(v.primaries) > 1 {
 		return false
@@ -582,9 +589,6 @@ func (v nodeView) coherent() bool {
 		if w, ok := v.ws[v.named]; !ok || w != "primary" {
 			return false
 		}
-	}
-	if len(v.primaries) == 1 && v.primaries[0] != v.named {
-		return false
 	}
 	return true
 }
@@ -727,6 +731,10 @@ func replay(sc *Scenario, col *collector) {
 		c22("snapshot-fails:after=init", 0, J{"error": err.Error()})
 	}
 	idxBad := map[string]bool{} // index sections currently disagreeing with their primaries
+	// nodes whose current writer_state was written by an AddNode/UpdateNode payload (not by promote/demote): a
+	// broken invariant that involves such a node after a later command is a consequence of the open
+	// add/update-node findings and is not reported again under the later command's name
+	wsFromPayload := map[string]bool{}
 	orphaned := false
 	for k := 1; k <= L; k++ {
 		c := sc.H[k-1].C
@@ -829,8 +837,28 @@ func replay(sc *Scenario, col *collector) {
 		}
 		// --- C23 on the real state after this command
 		pre, post := viewNodes(dA[k-1]), viewNodes(dA[k])
+		switch ty {
+		case "AddNode", "UpdateNode":
+			wsFromPayload[str(c, "id")] = str(c, "ws") != ""
+		case "RemoveNode":
+			delete(wsFromPayload, str(c, "id"))
+		default:
+			for id, w := range post.ws {
+				if pre.ws[id] != w {
+					delete(wsFromPayload, id) // rewritten by promote / demote
+				}
+			}
+		}
+		consequence := false
+		if ty != "AddNode" && ty != "UpdateNode" {
+			for _, id := range append(append([]string{}, post.primaries...), post.named) {
+				if wsFromPayload[id] {
+					consequence = true
+				}
+			}
+		}
 		if pre.coherent() {
-			if b := post.broken(); b != "" {
+			if b := post.broken(); b != "" && !consequence {
 				c23(b+":after="+ty, k, J{"primary_writer_id": post.named, "marked_primary": post.primaries, "writer_states": post.ws, "result": resA[k]})
 			}
 			if ty == "AddNode" || ty == "UpdateNode" {
